@@ -77,10 +77,29 @@ sd_max_evl_zero sd_full_control_flow sd_coordinates_one_update_past descent_lemm
 update_uses_own_force_only path_independent_of_batch_mates path_length_is_batch_global""".split()]
 
 THEOREMS_C03 += ["Census.all_while_loops_capped", "Census.sp2_loop_in_census"]
-THEOREMS_C18 += ["Census.documented_guards_present"]
+THEOREMS_C18 += ["Census.documented_guards_present", "Census.documented_guard_conditions"]
+THEOREMS_C15 += ["Census.process_state_is_audited", "Census.scf_registers_in_census"]
 
 THEOREMS_C06B = ["C06b." + t for t in """aintgs_recurrence aintgs_closed_form bintgs_recurrence bintgs_at_zero bintgs_series_is_truncated_maclaurin bintgs_parity exact_B_relation
 bintgs_recursion_satisfies_relation bintgs_zero_satisfies_relation bintgs_series_violates_exact_recurrence overlap_1s1s_equal_zeta overlap_22_equal_zeta overlap_33_equal_zeta
 poly11ss_spec poly21ss_spec poly21ps_spec poly22ss_spec poly22ps_spec poly22sp_spec poly22sig_spec poly22pi_spec poly31ss_spec poly31ps_spec poly32ss_spec poly32ps_spec poly32sp_spec
 poly32sig_spec poly32pi_spec poly33ss_spec poly33ps_spec poly33sp_spec poly33sig_spec poly33pi_spec local_eq_spec_11 local_eq_spec_21 local_eq_spec_22 local_eq_spec_31 local_eq_spec_32
 local_eq_spec_33 local_swap_11 local_swap_22 local_swap_33""".split()]
+
+# --- second round of Lean work -------------------------------------------------------------------------------------------------------
+THEOREMS_C02B = ["C02b." + t for t in """combos_get wRot_getD wRot_length W4_symm_left W4_symm_right W4_eq_idx frameD_eq_transverse W4idx_covariant w4_covariant_nested w4_covariant
+w_block_covariant w_block_covariant_code w_block_covariant_two_chart coulomb_matrix_covariant two_center_coulomb_energy_invariant core_electron_attraction_covariant
+R345_orthogonal Rz90_orthogonal Mxy_orthogonal riEx_axial w_block_not_invariant w_block_covariant_needs_axial_identity""".split()] + \
+    ["Covariance." + t for t in "cov_f1 cov_f2 cov_f3 cov_f4 cov_transverse coulombJ_covariant coulomb_energy_invariant orbRot_mem_orthogonalGroup".split()]
+THEOREMS_C10B = ["MDState." + t for t in """ckptComplete_of_left_inverse erase_agrees_with_MDOut state_at_write state_at_write_resumed values_are_state_at_label values_are_state_at_label_fresh
+uninterrupted_run_values resume_any_history_values resume_eq_uninterrupted_values same_snapshot writes_of_one_step_read_one_state thermo_of_written_phase
+incomplete_checkpoint_breaks_resume na_fresh_stream na_resume_stream crash_keeps_na_consistent disk_invariant_along_history_with_na resume_any_history_with_na
+resume_eq_uninterrupted_with_na with_na_base_is_MDOut erase_agrees_with_Proc5 values_are_state_at_label_na naAt_eq_obs resume_any_history_values_with_na
+resume_eq_uninterrupted_values_with_na na_double_offset_invisible_without_resume na_double_offset_counterexample""".split()]
+# the value-level statements that belong to C11 (stored values are those of the labelled step) and C08 (thermo row is that of the stored phase point)
+THEOREMS_C11B = ["MDState." + t for t in "values_are_state_at_label_fresh uninterrupted_run_values same_snapshot na_fresh_stream values_are_state_at_label_na".split()]
+THEOREMS_C08B = ["MDState." + t for t in "thermo_of_written_phase writes_of_one_step_read_one_state".split()]
+THEOREMS_C05B = ["C05b." + t for t in """get_error_rowwise rowWise_of_pointwise pointwise_of_rowWise row_independence_two_batches row_independence_forward0 row_independence_forward12_of_rowWise
+batch_is_concat_of_alone_forward0 batch_permutation_equivariance_forward0 adaptive_mix_row_independence_partial row_independence_forward1_partial row_independence_forward2_partial
+pulay_same_fixed_points sp2_batch_rowwise sp2_batch_permutation adaptive_mix_batch_coupling_witness adaptive_mix_batch_small_trace_witness adaptive_mix_small_trace_oracle_realised
+pulay_batch_coupling_witness row_independence_needs_rowwise""".split()]
